@@ -375,3 +375,121 @@ def _gen_once(rng, cc2, nnull, nctl, old_len, align, filler, trailing, uid0, gap
     if end in reserved or (end - 1) in reserved:
         lay.tags.add("after-message")
     return lay
+
+
+# ---------------------------------------------------------------------------------------------------------------
+# layouts with a reserved range across a sector boundary
+SECTOR = 1024
+
+
+def straddle_starts(boundary=SECTOR):
+    """addresses below `boundary` a control TLV can point at and from which a Memory Control TLV (at most 256
+    reserved bytes) reaches across the boundary.  (A Lock Control TLV announces at most 32 bytes and no expressible
+    address lies that close to a multiple of 1024, so only Memory Control TLVs can straddle a sector boundary.)"""
+    return [a for a in range(boundary - 255, boundary) if encodings(a)]
+
+
+def _fill_prefix(mem, pos, upto, items):
+    """proprietary TLVs (and a NULL TLV for a single byte) so that the next TLV starts at `upto`"""
+    while pos < upto:
+        gap = upto - pos
+        if gap == 1:
+            mem[pos] = NULL_T
+            items.append(["null"])
+            pos += 1
+            continue
+        chunk = min(gap, 256)
+        mem[pos] = PROP_T
+        mem[pos + 1] = chunk - 2
+        items.append(["fill", chunk - 2])
+        pos += chunk
+    return pos
+
+
+def straddle_layout(rng, boundary=SECTOR, start=None, end=None, place="before", ndef_off=None, behind=None,
+                    cc2=None, trailing=None, uid0=None, terminator=None):
+    """well-formed layout with one Memory Control TLV whose reserved range [start, end) begins in the sector below
+    `boundary` and ends in the sector above it (start < boundary < end).
+
+    place "before": the NDEF Message TLV starts in front of the range (header not closer than 4 bytes), the stored
+                    message has `behind` value bytes behind the range (0: the value ends directly in front of it,
+                    negative: -behind usable bytes earlier, "cap": it fills the data area)
+    place "behind": the TLV stream continues behind the range: proprietary TLVs fill the bytes in front of it and the
+                    NDEF Message TLV starts at `end`; `behind` is the message length
+    -> Layout (tags {"sector-straddle"}) or None when the combination cannot be laid out"""
+    starts = straddle_starts(boundary)
+    if start is None:
+        start = rng.choice(starts)
+    if end is None:
+        end = boundary + rng.choice([1, 2, 3, 4, 5, 8, 12, 16, 20, 33])
+    nbytes = end - start
+    if start not in starts or not (start < boundary < end) or nbytes > 256:
+        return None
+    lay = Layout()
+    cands = [c for c in ([cc2] if cc2 is not None else [129, 130, 144, 200, 234, 255]) if 16 + 8 * c >= end + 4]
+    if not cands:
+        return None
+    lay.cc2 = rng.choice(cands)
+    data_end = lay.data_end = 16 + 8 * lay.cc2
+    if trailing is None:
+        trailing = rng.choice([0, 4, 16, 32])
+    size = data_end + trailing
+    if size <= boundary:
+        return None
+    mem = lay.mem = bytearray(rng.randrange(256) for _ in range(size))
+    mem[0] = uid0 if uid0 is not None else rng.choice([0x01, 0x02, 0x05, 0x07, 0x1D, 0x2E, 0x9F])
+    mem[3] = 0x88 ^ mem[0] ^ mem[1] ^ mem[2]
+    mem[8] = mem[4] ^ mem[5] ^ mem[6] ^ mem[7]
+    mem[10:12] = b"\0\0"
+    mem[12:16] = bytes([0xE1, 0x10, lay.cc2, 0x00])
+    for a in range(data_end, size):
+        mem[a] = 0
+    pa, bo, n = rng.choice(encodings(start))
+    mem[16:21] = bytes([MEM_T, 3, pa << 4 | bo, nbytes & 255, n])
+    lay.items.append(["mem", start, nbytes, "sector-straddle"])
+    lay.ctrl.append((MEM_T, 16, start, nbytes))
+    lay.tags.add("sector-straddle")
+    reserved = lay.reserved
+    reserved.update(range(start, end))
+    if place == "behind":
+        # the stream runs up to the range (0..2 NULL TLVs directly in front of it), the NDEF TLV follows it
+        nulls = rng.choice([0, 0, 1, 2])
+        pos = _fill_prefix(mem, 21, start - nulls, lay.items)
+        for _ in range(nulls):
+            mem[pos] = NULL_T
+            pos += 1
+        lay.ndef_off = end
+        cap = ref_capacity(end, data_end, reserved)
+        ln = cap if behind == "cap" else (rng.choice([0, 1, 5, 16, 40, cap]) if behind is None else behind)
+        if ln < 0 or ln > cap:
+            return None
+    else:
+        if ndef_off is None:
+            ndef_off = rng.choice([21, 21, start - 4, start - 5, start - 6, start - 7, rng.randrange(21, start - 3)])
+        if not 21 <= ndef_off <= start - 4:
+            return None
+        _fill_prefix(mem, 21, ndef_off, lay.items)
+        lay.ndef_off = ndef_off
+        cap = ref_capacity(ndef_off, data_end, reserved)
+        if behind is None:
+            behind = rng.choice([-1, 0, 1, 2, 3, 4, 8, 15, 16, 17, 40, "cap"])
+        if behind == "cap":
+            ln = cap
+        else:
+            ln = None
+            for hdr in (2, 4):
+                x = start - ndef_off - hdr + behind
+                if x >= 0 and (x < 255) == (hdr == 2):
+                    ln = x
+            if ln is None:
+                return None
+        if ln > cap:
+            return None
+    lay.old = bytes(rng.randrange(256) for _ in range(ln))
+    if terminator is None:
+        terminator = rng.random() < 0.75
+    place_ndef(mem, lay.ndef_off, reserved, data_end, lay.old, terminator=terminator)
+    chk = ref_read(mem)
+    assert chk.status == "ndef" and chk.ndef_off == lay.ndef_off and chk.message == lay.old and \
+        chk.reserved == reserved, ("straddle layout and reference reader disagree", lay.describe(), chk)
+    return lay
